@@ -41,7 +41,7 @@ class ImportTarget(Contract):
                 pc = sym_ref(st, "pconn", (vckt.ConnectionTarget,))
                 m = sym_ref(st, "module", (Module,))
                 st.assume(st.heap.get("_initialized", m.z))
-                st.ghost[("oneof", pc.z.get_id(), "stype")] = variant
+                st.ghost[("oneof", zid(pc.z), "stype")] = variant
                 if variant == "slice":
                     sl = st.heap.get("ConnectionTarget.slice", pc.z)
                     st.assume(z3.And(sl != NULL, st.heap.get("$alive", sl),
@@ -69,7 +69,7 @@ class ImportTarget(Contract):
         return st0.heap.get("signal", st0.heap.get("ConnectionTarget.slice", a.pconn.z))
 
     def p_target(self, eng, st0, st, a, res):
-        variant = st0.ghost.get(("oneof", a.pconn.z.get_id(), "stype"))
+        variant = st0.ghost.get(("oneof", zid(a.pconn.z), "stype"))
         if variant == "concat":
             calls = [c for c in st.calls if c[0] == ImportConcat.key]
             return len(calls) == 1
@@ -90,7 +90,7 @@ class ImportTarget(Contract):
     posts = property(lambda self: [("target", self.p_target)])
 
     def m_undeclared(self, eng, st0, a):
-        variant = st0.ghost.get(("oneof", a.pconn.z.get_id(), "stype"))
+        variant = st0.ghost.get(("oneof", zid(a.pconn.z), "stype"))
         if variant not in ("sig", "slice"):
             return variant is None
         ns = st0.heap.get("namespace", a.module.z)
